@@ -1,6 +1,7 @@
 import HcipyVerif.Model.FftWeights
 import HcipyVerif.Model.Nft
 import HcipyVerif.Model.Multiplex
+import HcipyVerif.Model.MftState
 import HcipyVerif.Model.Proto
 import HcipyVerif.Model.FftGrid
 import HcipyVerif.Model.FftIndex
@@ -332,6 +333,13 @@ def step (st : St) : List String → St × String
           w.length != (if fwd then n else m) || j ≥ (if fwd then n else m) || t ≥ tensorSize ts then (st, "err value") else
       (st, "ok " ++ showPSums (multiplexNftImpulse fwd (path == "mat") xs us w ts t j))
     | _, _, _, _, _, _ => (st, "bad-op")
+  | ["mftstate", pre, alloc, ndim, dss] =>
+    match parseBool? pre, parseBool? alloc, parseNat? ndim, parseNatList? dss with
+    | some pre, some alloc, some ndim, some ds =>
+      if (ndim != 1 && ndim != 2) || ds.any (· > 1) then (st, "err value") else
+      let ps : List Prec := ds.map fun d => if d == 0 then Prec.single else Prec.double
+      (st, "ok " ++ " ".intercalate (mftTrace ⟨pre, alloc, ndim⟩ ps))
+    | _, _, _, _ => (st, "bad-op")
   | ["load", sh, N, M, bufs, fs] =>
     match parseBool? sh, parseNat? N, parseNat? M, parseRatList? bufs, parseRatList? fs with
     | some sh, some N, some M, some buf, some f =>
